@@ -10,8 +10,8 @@ open RedoModel.Deps RedoModel.Generated
 recorded: it is retried by the next run even if nothing changed. -/
 theorem failed_is_dirty (ood : Bool) (R n : Nat) (w : World) (c : List Nat) (f mx : Nat) (seen : List Nat)
     (hf : (getRec w R f).failed.isSome = true) (hs : f ∉ seen) :
-    isDirty ood R (n + 1) w c f mx seen = (.dirty, w, c) := by
-  simp (config := { zeta := true, zetaHave := true }) only [isDirty, hs, hf, if_true, if_false]
+    isDirty ood R (n + 1) w c f mx seen none = (.dirty, w, c) := by
+  simp (config := { zeta := true, zetaHave := true }) only [isDirty, Option.getD_none, hs, hf, if_true, if_false]
 
 /-- A failing script is recorded as failed in this run and the target file is left alone. -/
 theorem failure_recorded (cx : Ctx) (t : Nat) (sf : Rec) (rv : Status) (out : Option Content) (w : World)
@@ -38,7 +38,7 @@ theorem keep_going_past_failed (E : Engine) (d : Defects) (cx : Ctx) (fuel t : N
   have hj := (once_per_run E d cx fuel t (addKnown w t) hd hr hf).1
   rw [runTargets]
   simp only [hs, if_false, hk, Bool.not_true, Bool.and_false, Bool.false_eq_true, hcyc, hj]
-  simp [EXIT_TARGET_FAILED]
+  simp [EXIT_TARGET_FAILED, CRASHED]
 
 /-- Witness for the repaired defect `failedTargetAbortsRun`: with the switch on, the same
 request aborts the run with status 32 whatever targets remain. -/
@@ -67,7 +67,10 @@ theorem propagates (E : Engine) (d : Defects) (cx : Ctx) (fuel : Nat) :
               simp [EXIT_TARGET_FAILED, EXIT_CYCLIC_DEPENDENCY]
           split
           · rename_i heq; exact hab _ _ _ heq
-          · simp only [Bool.true_or]; exact propagates E d cx fuel ts _ _
+          · simp only [Bool.true_or]
+            split
+            · simp [CRASHED]
+            · exact propagates E d cx fuel ts _ _
 
 /-- Without `--keep-going`, no further target of the command is started after a failure is
 known. -/
